@@ -1,11 +1,12 @@
 (** A bounded, exhaustive complement to [convert_keeps_target]: on a fixed universe that
     also contains aliases (with longest-alias selection), a custom module folder name,
+    file-valued aliases (an ordinary file and a module-folder file),
     module-folder requiring files at every depth, absolute targets and targets reached
     through redundant segments, every conversion between the path and the luau mode keeps
     the target unless (a) the target is not the first existing candidate of its stripped
     form, or (b) the resolved path starts with "."/".." and the requiring file is not
     directly in the working directory. Proved by evaluation ([vm_compute]) of all
-    6 configuration pairs x 128 file subsets x 6 requiring files x 33 require strings. *)
+    6 configuration pairs x 128 file subsets x 6 requiring files x 35 require strings. *)
 From DL Require Import Lib.Bytes Model.Paths Model.Require Proof.PathsBasics Proof.PathsFacts Proof.PathsConvert.
 Open Scope N_scope.
 Local Open Scope string_scope.
@@ -42,10 +43,10 @@ Definition bounded_pairs : list (config * config) :=
     (mk_config true "init" [] None, mk_config false "init" [] None);
     (mk_config false "index" [] None, mk_config true "init" [] None);
     (mk_config true "init" [] None, mk_config false "index" [] None);
-    (mk_config false "init" [("pkg", "pkg"); ("@deep", "pkg/b")] (Some ""),
-     mk_config true "init" [("@pkg", "pkg"); ("@deep", "pkg/b")] (Some ""));
-    (mk_config true "init" [("@pkg", "pkg"); ("@deep", "pkg/b")] (Some ""),
-     mk_config false "init" [("@pkg", "pkg"); ("@deep", "pkg/b")] (Some "")) ].
+    (mk_config false "init" [("pkg", "pkg"); ("@deep", "pkg/b"); ("@binit", "src/b/init.lua"); ("@bfile", "pkg/b.lua")] (Some ""),
+     mk_config true "init" [("@pkg", "pkg"); ("@deep", "pkg/b"); ("@binit", "src/b/init.lua"); ("@bfile", "pkg/b.lua")] (Some ""));
+    (mk_config true "init" [("@pkg", "pkg"); ("@deep", "pkg/b"); ("@binit", "src/b/init.lua"); ("@bfile", "pkg/b.lua")] (Some ""),
+     mk_config false "init" [("@pkg", "pkg"); ("@deep", "pkg/b"); ("@binit", "src/b/init.lua"); ("@bfile", "pkg/b.lua")] (Some "")) ].
 
 Definition bounded_optional : list path :=
   map BP ["src/b.lua"; "src/b.luau"; "src/b/init.lua"; "pkg/b.lua"; "pkg/b/c.luau"; "b.lua"; "/abs/b.lua"].
@@ -55,7 +56,7 @@ Definition bounded_sources : list path := bounded_base.
 Definition bounded_literals : list bytes :=
   map BS ["./b"; "./b.lua"; "./b.luau"; "./b/init"; "./b/init.lua"; "./b/index"; "../b"; "../src/b"; "./x/../b"; "../../b";
           "@self/b"; "@self"; "."; ".."; "./sub"; "./c"; "../c"; "./a"; "../a"; "./init"; "../init";
-          "pkg/b"; "@pkg/b"; "@pkg/b.lua"; "@pkg/b/c"; "@deep"; "@deep/c"; "/abs/b"; "/abs/b.lua"; "../pkg/b"; "./pkg/b"; "src/b"; "b"].
+          "pkg/b"; "@pkg/b"; "@pkg/b.lua"; "@pkg/b/c"; "@deep"; "@deep/c"; "/abs/b"; "/abs/b.lua"; "../pkg/b"; "./pkg/b"; "src/b"; "b"; "@binit"; "@bfile"].
 
 Fixpoint select_mask {A} (l : list A) (mask : N) : list A :=
   match l with
